@@ -316,11 +316,14 @@ class C02(EvalProp):
 class C03(EvalProp):
     pid = "C03"
     design_ref = "DESIGN.md section 3, C03"
-    technique = "Coq proof that model paths are Normalized Paths on plain names + differential correspondence with re-query"
+    technique = "Coq proofs (paths are Normalized Paths; np injective; re-query through the parser model) + differential correspondence with re-query"
     level_text = ("Coq theorems: for documents whose member names need no escaping and queries without double-quoted or escaped names, "
                   "every path the model reports is np(location) (RFC 9535 2.7), through every selector kind and the descendant segment; "
-                  "np is injective. Correspondence compares the crate's path strings with np of the address-derived location and feeds "
-                  "every reported path back as a query.")
+                  "np is uniquely decodable for every name and index (a decoder inverts it), hence two results have the same path iff they "
+                  "are at the same location; re-running a reported path returns exactly the reported node, at AST level and at string level "
+                  "(the path string parsed by the generated grammar + parser.rs model, proved by symbolic execution of the PEG interpreter). "
+                  "Correspondence compares the crate's path strings with np of the address-derived location and feeds every reported path "
+                  "back as a query.")
     level_note = "D6 (raw, unescaped result paths) is entrenched by unit tests single_quote, name_sel, tab_key; known finding"
     rule = ("random pairs incl. hostile member names; observable = (location, path) per result, path compared with the Coq-computed "
             "Normalized Path; phase 2 re-queries every plain reported path; non-trivial = RFC nodelist non-empty")
@@ -796,7 +799,9 @@ class C06(ParseProp):
     level_text = ("The pest grammar is translated into a Coq deep embedding on every run; the parser model (Peg.v interpreter over it + Build.v, the "
                   "hand model of parser.rs) is extracted and run against the crate on every generated sentence, together with an independent "
                   "reference recogniser of the RFC 9535 ABNF + validity rules written in Coq (Concrete.v). Coq theorems: Build accepts every "
-                  "well-typed standard function call and every in-range integer (C06_typing, C06_int_range). The whole-language acceptance "
+                  "well-typed standard function call (C06_typing_partial); the whole pipeline accepts every Normalized Path -- any number of "
+                  "steps, any name of unescaped Unicode scalar values, any index below 2^53 -- and reads it as the right AST "
+                  "(C06_normalized_paths_partial: the grammar of this run executed symbolically, then parser.rs). The whole-language acceptance "
                   "theorem (every RFC sentence is accepted) is NOT proved: that part rests on the differential run and is named partial.")
     level_note = "whole-language round trip not proved (partial); rendered sentences cover all layout choices, escapes, number formats; pest runtime modelled"
     rule = ("sentences rendered from random well-typed ASTs under random layouts (blank space at every S, quote style, every escape form incl. "
@@ -1119,13 +1124,14 @@ class C09(PropCheck):
     pid = "C09"
     design_ref = "DESIGN.md section 3, C09"
     technique = "Coq proof (path_steps/walk = lookup of the location; lens laws of set_at) + exhaustive per-location differential run"
-    level_text = ("Coq theorems: for every document and every location whose names need no escaping, the model of reference/reference_mut "
-                  "(path_steps + step-by-step walk) applied to the AST of the Normalized Path resolves to exactly that location when it "
-                  "exists and to None when it does not; whatever a path resolves to lives at the resolved location; writing through a "
+    level_text = ("Coq theorems: for every document and every location whose names need no escaping (indices below 2^53), the model of "
+                  "reference/reference_mut applied to the STRING np(l) -- parsed by the PEG interpreter over the grammar generated from the "
+                  ".pest file of this run and by the model of parser.rs (C09_reference_string_partial, by symbolic execution of the grammar), "
+                  "then path_steps + step-by-step walk -- resolves to exactly that location when it exists and to None when it does not; whatever a path resolves to lives at the resolved location; writing through a "
                   "location replaces that node and leaves every location that does not pass through it unchanged (lens laws, unbounded). "
                   "That the parser reads np(l) as that AST is checked on every run: every location of generated documents, near-miss paths "
                   "(wrong step kind, out of range, / and ~ names), and paths reported by queries are fed to reference and reference_mut of the crate.")
-    level_note = "parser part of the composition not proved; names needing escapes are the known class D6 (raw result paths); &mut aliasing is Rust's type system"
+    level_note = "names needing escapes are the known class D6 (raw result paths); &mut aliasing is Rust's type system"
     rule = ("for generated documents: every location (capped per document) with its Normalized Path, near-miss paths, and paths reported by "
             "random queries; 6 replacement values; observable = resolved location (by address) and the whole document after writing through "
             "reference_mut; non-trivial = the path resolves in the RFC reading; distinct = distinct (document, path, replacement)")
